@@ -40,3 +40,26 @@ class Cached:
         if self._ok is None:
             self._ok = lines_of__list(self._contents)
         return iter(self._ok)
+
+
+class AndValidator:
+    def __init__(self, validators):
+        self.validators = validators
+
+    def validate_pre(self):
+        return [v for v in self.validators]
+
+    def validate_post(self):
+        return [v for v in self.validators]
+
+
+class Consumer:
+    def __init__(self, items):
+        self._n = len(list(items))
+
+
+def make(parts):
+    a = AndValidator(p.validator for p in parts)  # EXPECT one-shot
+    b = AndValidator([p.validator for p in parts])
+    c = Consumer(p for p in parts)  # consumed in the constructor, not kept
+    return a, b, c
